@@ -1011,6 +1011,10 @@ static Member *struct_designator(Token **rest, Token *tok, Type *ty) {
       continue;
     }
 
+    // Unnamed bit-fields have no name to match.
+    if (!mem->name)
+      continue;
+
     // Regular struct member
     if (mem->name->len == tok->len && !strncmp(mem->name->loc, tok->loc, tok->len)) {
       *rest = tok->next;
@@ -2750,6 +2754,10 @@ static Member *get_struct_member(Type *ty, Token *tok) {
         return mem;
       continue;
     }
+
+    // Unnamed bit-fields have no name to match.
+    if (!mem->name)
+      continue;
 
     // Regular struct member
     if (mem->name->len == tok->len &&
